@@ -430,6 +430,11 @@ def run(ctx):
     seed = int(os.environ.get("VERIF_SEED", "0") or 0)
     hdir, src, specs = prepare_harness(ctx.tier, seed)
     fr = ctx.facts("default")   # /repo itself must build
+    # the runtime half of the auto-flush variant (src/auto_flush.rs): every update made through a generated accessor reaches the local metric and is flushed
+    from . import C06, C12
+    ctx.rule("S8", "auto-flush runtime (shared with C12.L11): AFLocalCounter / AFLocalHistogram delegate every update unchanged to the wrapped local metric and flush it "
+                   "(may_flush / flush), so that what a generated auto-flush accessor receives is delivered to the addressed child")
+    ctx.run_rule("S8", lambda c: C06._as(c, "S8", lambda s_: C12.rule_auto_flush(s_, fr, "L11")))
     try:
         if hdir is None:
             lib = os.path.join(VERIF, "harness", "smgen", "src", "lib.rs")
